@@ -293,6 +293,9 @@ pub struct Outcome {
     pub event_ops: Vec<usize>,
     pub calls: Vec<WriterCall>,
     pub mismatches: Vec<String>,
+    /// refusable offers (RowProg::offers) the library accepted / refused
+    pub offers_accepted: Vec<String>,
+    pub offers_refused: usize,
     pub leftover_actions: usize,
     pub out: Vec<u8>,
     pub flushed: usize,
@@ -438,6 +441,8 @@ fn run_inner(c: &Conversation, tls: Option<std::sync::Arc<rustls::ServerConfig>>
         event_ops: std::mem::take(&mut s.event_ops),
         calls: std::mem::take(&mut s.calls),
         mismatches: std::mem::take(&mut s.mismatches),
+        offers_accepted: std::mem::take(&mut s.offers_accepted),
+        offers_refused: s.offers_refused,
         leftover_actions: s.actions.len(),
         out: std::mem::take(&mut t.out),
         flushed: t.flushed,
